@@ -13,11 +13,13 @@ EXTENDS Naturals, Sequences, FiniteSets, TLC, Json, IOUtils
 Corpus == JsonDeserialize(IOEnv.CORPUS_FILE)          \* [class |-> <<[text, value], ...>>]
 CONSTANTS MaxLen
 Classes == DOMAIN Corpus
-Values  == {<<c, i>> : c \in Classes, i \in 1..3} \cap {<<c, i>> \in Classes \X (1..8) : i <= Len(Corpus[c])}
+\* every representative on its own; the first three of each class in longer lists
+AllValues == {<<c, i>> \in Classes \X (1..8) : i <= Len(Corpus[c])}
+Values  == {<<c, i>> \in AllValues : i <= 3}
 Denote(v) == Corpus[v[1]][v[2]].value
 Delims == {"space", "comma", "semicolon"}
 
-ParamLists == UNION {[1..n -> Values] : n \in 1..MaxLen}
+ParamLists == [1..1 -> AllValues] \cup UNION {[1..n -> Values] : n \in 2..MaxLen}
 
 Cases ==
   {[kind |-> "params", pos |-> p, delim |-> dl, vals |-> vs, denote |-> [i \in 1..Len(vs) |-> Denote(vs[i])]] :
